@@ -148,6 +148,28 @@ pub fn traverse(world: &WorldRef, with_shx: bool, rstack: StackCfg, n_expected: 
             }
         }
     }
+    // after the random accesses (the last of which may have failed), iterate once more: whatever
+    // happened before, an item of rank k is record k or an error - never another record
+    let r = guarded(|| {
+        let mut out = Vec::new();
+        let mut it = rdr.iter_shapes();
+        for k in 0..cap {
+            let first = evs(world);
+            let x = it.next();
+            let end = evs(world);
+            let res = x.map(|x| x.map(|s| capture(&s)).map_err(|e| classify(&e)));
+            let stop = !matches!(res, Some(Ok(_)));
+            out.push(RMark { call: format!("again#{}", k), first_ev: first, end_ev: end, res, panic: None });
+            if stop {
+                break;
+            }
+        }
+        out
+    });
+    match r {
+        Ok(v) => marks.extend(v),
+        Err(p) => marks.push(RMark { call: "again".into(), first_ev: 0, end_ev: 0, res: None, panic: Some(p) }),
+    }
     marks
 }
 
@@ -158,7 +180,7 @@ fn genuine_only(ctx: &mut Ctx, marks: &[RMark], f: &ValidFile, what: &str) {
             ctx.fail("C13", "panic", p.site(), format!("{}: {} panicked: {}", what, m.call, p.text()));
         }
         let Some(Ok(g)) = &m.res else { continue };
-        let idx: Option<usize> = if let Some(k) = m.call.strip_prefix("next#") {
+        let idx: Option<usize> = if let Some(k) = m.call.strip_prefix("next#").or_else(|| m.call.strip_prefix("again#")) {
             k.parse().ok()
         } else {
             m.call.strip_prefix("read_nth(").and_then(|s| s.trim_end_matches(')').parse().ok())
